@@ -336,8 +336,11 @@ fn mk_long_lived(shard: usize) -> LongLived {
 
 fn long_lived_case(c: &LCase, lo: &mut LongLived, st: &mut Stats) -> Result<(), Failure> {
     let ws = ll_words();
-    let (w1, w2) = (&ws[c.w1 as usize % ws.len()], &ws[c.w2 as usize % ws.len()]);
-    ll_step(lo, w1, c.term, c.frac, w2, st)
+    // a third of the words come from a small hot pool, so that learned words are met again
+    let hot = ["sar", "sesh", "kotha", "amar", "park", "onno", "din", "rat", "boi", "kor", "bon", "mon"];
+    let pick = |x: u32| -> String { if x % 10 < 3 { hot[(x / 10) as usize % hot.len()].to_string() } else { ws[x as usize % ws.len()].clone() } };
+    let (w1, w2) = (pick(c.w1), pick(c.w2));
+    ll_step(lo, &w1, c.term, c.frac, &w2, st)
 }
 
 fn ll_step(lo: &mut LongLived, w1: &str, term: u8, frac: u16, w2: &str, st: &mut Stats) -> Result<(), Failure> {
@@ -389,7 +392,41 @@ fn ll_step(lo: &mut LongLived, w1: &str, term: u8, frac: u16, w2: &str, st: &mut
         lo.log.remove(0);
     }
     let copy = lo.sb.duplicate();
-    let fresh = Ctx::new(opts, &copy).map_err(pf)?;
+    let mut fresh = Ctx::new(opts, &copy).map_err(pf)?;
+    if c.term & 4 != 0 {
+        // variant: the candidate list is switched off (update-engine, idle), the next word is typed and committed
+        // there, the list is switched on again - in both contexts; nothing of the word that ended before the switch
+        // (its list, its preselection) may count for that commit
+        let mut off = opts;
+        off.psug = false;
+        off.fsug = false;
+        lo.ctx.update(off, &lo.sb).map_err(pf)?;
+        fresh.update(off, &copy).map_err(pf)?;
+        let a = lo.ctx.type_text(w2).map_err(pf)?;
+        let b = fresh.type_text(w2).map_err(pf)?;
+        if a != b {
+            return Err(Failure::new(
+                "long-lived-context-differs-from-new",
+                format!("after {w1:?} ended by {what} and the list switched off: typing {w2:?}: used context {:?}, new context {:?}", a.map(|r| r.short()), b.map(|r| r.short())),
+                case(),
+            ));
+        }
+        if lo.ctx.ongoing() {
+            lo.ctx.commit(0).map_err(pf)?;
+            fresh.commit(0).map_err(pf)?;
+        }
+        lo.ctx.update(opts, &lo.sb).map_err(pf)?;
+        fresh.update(opts, &copy).map_err(pf)?;
+        let (sa, sb2) = (lo.sb.parsed_selections(), copy.parsed_selections());
+        if sa != sb2 {
+            return Err(Failure::new(
+                "commit-with-the-list-off-changes-the-store-unlike-a-new-context",
+                format!("after {w1:?} ended by {what}: list switched off, {w2:?} committed, list switched on: the used context's store is {sa:?}, the new context's {sb2:?}"),
+                case(),
+            ));
+        }
+        st.label("next-word-committed-with-the-list-switched-off");
+    }
     let mut sel = 0u8;
     for ch in w2.chars() {
         let a = lo.ctx.ch(ch, sel).map_err(pf)?;
@@ -420,7 +457,7 @@ fn ll_step(lo: &mut LongLived, w1: &str, term: u8, frac: u16, w2: &str, st: &mut
 }
 
 fn lcase_strategy() -> impl Strategy<Value = LCase> {
-    (any::<u32>(), any::<u32>(), 0u8..4, any::<u16>()).prop_map(|(w1, w2, term, frac)| LCase { w1, w2, term, frac })
+    (any::<u32>(), any::<u32>(), 0u8..4, any::<u16>(), proptest::bool::weighted(0.3)).prop_map(|(w1, w2, term, frac, toggle)| LCase { w1, w2, term: term | if toggle { 4 } else { 0 }, frac })
 }
 
 pub fn run(run: &Run) {
@@ -430,6 +467,7 @@ pub fn run(run: &Run) {
     run.require_label("terminated-by-backspaces", 30);
     run.sharded("long-lived-context-vs-new", 16, run.tier.pick(260, 4000), 0, lcase_strategy, mk_long_lived, |c: &LCase, st, lo| long_lived_case(c, lo, st));
     run.require_label("long-lived-context-reached-400-words", 8);
+    run.require_label("next-word-committed-with-the-list-switched-off", 300);
 }
 
 /// Replay: the concrete trace is split at `continuation_starts_at`; events before it run in the
